@@ -4,7 +4,9 @@ import json
 import random
 import sys
 
-from . import query_replay
+from . import query_replay, resolver_replay
+
+NAMEPOOL = ["a", "b", "c", "A", "ab", "a.b"]
 
 
 def worker_init(repo, assertions=False):
@@ -33,8 +35,16 @@ def history(args):
     N.build_forest(family, par, ch)
     strict = N.FAMILIES[family]["strict"]
     objs = N.Ctx.objs
-    ops, queries = [], []
+    ops, queries, resolver_events, recent, asked, hits = [], [], [], [], [], []
     hid = "%s-%d" % (family, seed)
+    names = None
+    if family in ("node", "anynode", "mixin"):
+        from anytree import Resolver
+
+        names = {l: rnd.choice(NAMEPOOL) for l in labels}
+        for l in labels:
+            objs[l].name = names[l]
+        resolvers = {(ic, relax): Resolver("name", ignorecase=ic, relax=relax) for ic in (False, True) for relax in (False, True)}
 
     def plan():
         r = rnd.random()
@@ -49,7 +59,7 @@ def history(args):
     for step in range(steps):
         r = rnd.random()
         prepar, prech = N.snapshot()
-        if r < 0.55:
+        if r < (0.55 if names is None else 0.40):
             # ---- a mutator call
             kind = rnd.choice(("sp", "sp", "sp", "sc", "sc", "dc"))
             n = rnd.choice(labels)
@@ -82,11 +92,68 @@ def history(args):
             ev = dict(call, plan=p, strict=strict, asrt=asrt, prepar=prepar, prech=prech, postpar=postpar, postch=postch,
                       exc=exc, src=src, log=log if exc != "RecursionError" else log[:12], id="%s.%d" % (hid, step))
             ops.append(ev)
+        elif r < 0.50 and names is not None:
+            # ---- rename a node (changes what paths denote; the resolvers below are long-lived objects)
+            # (preferably a node a path was just resolved to: a resolver that remembers results must notice)
+            lbl = rnd.choice(hits) if hits and rnd.random() < 0.6 else rnd.choice(labels)
+            names[lbl] = rnd.choice(NAMEPOOL)
+            objs[lbl].name = names[lbl]
+        elif r < 0.75 and names is not None:
+            # ---- Resolver.get / glob through long-lived resolver objects
+            again = None
+            if asked and rnd.random() < 0.5:
+                start, comps, ic, again = rnd.choice(asked)      # the same question again, through the same resolver object
+            else:
+                if rnd.random() < 0.5:
+                    # a path that exists right now: down from a random node along current names
+                    start = rnd.choice(labels)
+                    comps, cur = [], objs[start]
+                    while cur.children and len(comps) < 3 and rnd.random() < 0.8:
+                        cur = rnd.choice(cur.children)
+                        comps.append(names[N.label(cur)])
+                    comps = comps or ["."]
+                else:
+                    comps = [rnd.choice(NAMEPOOL + ["..", ".", "", "zz", "*", "a*", "?", "**"]) for _ in range(rnd.randint(1, 3))]
+                    start = rnd.choice(labels)
+                if rnd.random() < 0.25:
+                    root = objs[start].root
+                    comps = ["", names[N.label(root)]] + comps
+                ic = rnd.random() < 0.4
+            wild = any(("*" in c or "?" in c) for c in comps)
+            path = "/".join(comps)
+            ev = {"id": "%s.%d" % (hid, step), "par": prepar, "ch": prech, "names": {l: list(v) for l, v in names.items()}, "s": start,
+                  "cs": [list(c) for c in comps], "ic": ic}
+            saved = N.Ctx.log
+            N.Ctx.log = None
+            if again is None:
+                again = ("glob", False) if (any(("*" in c or "?" in c) for c in comps) or rnd.random() < 0.3) else ("get", rnd.random() < 0.4)
+                asked.append((start, list(comps), ic, again))
+                del asked[:-5]
+            if again[0] == "glob":
+                ev["q"] = "glob"
+                ev["runs"] = [{"strict": resolver_replay.outcome(lambda: resolvers[(ic, False)].glob(objs[start], path), N.label),
+                               "relaxed": resolver_replay.outcome(lambda: resolvers[(ic, True)].glob(objs[start], path), N.label)}]
+            else:
+                relax = again[1]
+                ev.update(q="get", relax=relax, res=resolver_replay.outcome(lambda: resolvers[(ic, relax)].get(objs[start], path), N.label))
+                hits.extend(ev["res"]["val"])
+                del hits[:-4]
+            N.Ctx.log = saved
+            resolver_events.append(ev)
         else:
-            # ---- a query on the live objects
-            q = rnd.choice(("nav", "nav", "common", "iters", "iters", "iters", "walk", "find", "findall"))
+            # ---- a query on the live objects (half of the time: an earlier query again, which exposes stale caches)
+            q = rnd.choice(("nav", "nav", "common", "iters", "iters", "iters", "walk", "find", "findall", "sweep"))
+            if q == "sweep":
+                for lbl in labels:
+                    query = {"q": "nav", "n": lbl}
+                    obs = query_replay.perform(query, family, prepar, prech, objs=objs)
+                    queries.append({"id": "%s.%d.%s" % (hid, step, lbl), "par": prepar, "ch": prech, "query": query, "obs": obs, "changed": False})
+                continue
             query = {"q": q}
-            if q == "nav":
+            if recent and rnd.random() < 0.5:
+                query = dict(rnd.choice(recent))
+                q = query["q"]
+            elif q == "nav":
                 query["n"] = rnd.choice(labels)
             elif q == "common":
                 query["ns"] = [rnd.choice(labels) for _ in range(rnd.randint(0, 3))]
@@ -98,6 +165,8 @@ def history(args):
                              fl=sorted(set(labels) - set(hide)), ml=rnd.choice((query_replay.NOMAX, query_replay.NOMAX, 0, 1, 2, 3, 4)))
                 if q == "findall":
                     query.update(minc=rnd.choice((-1, -1, 0, 1, 2, 3)), maxc=rnd.choice((-1, -1, 0, 1, 2, 5)))
+            recent.append(dict(query))
+            del recent[:-6]
             saved = N.Ctx.log
             N.Ctx.log = None
             try:
@@ -108,4 +177,4 @@ def history(args):
             after = N.snapshot()
             queries.append({"id": "%s.%d" % (hid, step), "par": prepar, "ch": prech, "query": query, "obs": obs,
                             "changed": after != (prepar, prech)})
-    return {"ops": ops, "queries": queries, "family": family, "seed": seed}
+    return {"ops": ops, "queries": queries, "resolver": resolver_events, "family": family, "seed": seed}
